@@ -4,6 +4,7 @@ import (
 	"bytes"
 	"fmt"
 	"net"
+	"strings"
 	"sync"
 )
 
@@ -281,6 +282,20 @@ func cTCPInto(ctx *Ctx, prop string, nCases int, shard0 int) {
 	}
 	if len(terms) > 0 {
 		ctx.WriteCases(shard, "Corr.TCP", "case", terms)
+	}
+	if prop == "C15" { // the same runs through the real Prometheus collectors
+		var cts []string
+		for _, j := range jobs {
+			if j.spec.coll != "" {
+				cts = append(cts, j.spec.coll)
+				ctx.CountN("collector:calls", j.spec.collN)
+				ctx.Count("collector:cases")
+				for _, d := range j.spec.collDiffs {
+					ctx.Monitor("C15/gathered-counter-differs:"+strings.SplitN(d, ":", 2)[0], "Prometheus "+d, j.spec)
+				}
+			}
+		}
+		writeCollCases(ctx, shard0+5000, cts)
 	}
 	for _, s := range []string{"OK", "ERR_CIPHER"} {
 		if !classes[s] {
